@@ -197,6 +197,89 @@ def compile_var(spec, flavour, skip, seam):
     return O.reload(ufo2ft.compileVariableCFF2(ds, useProductionNames=False, **opts))
 
 
+# ---- skipped component with an intermediate (sparse) master the composite lacks --------------------
+
+def sparse_family(c, skip):
+    """Weight x (optional) Width designspace; 'Abar' = [A, _bar]; '_bar' has an extra sparse master."""
+    def master(stem, width, bar):
+        return {"glyphs": {
+            ".notdef": {"width": 500},
+            "A": {"width": width, "unicodes": [0x41], "contours": [B.box(48, 0, 48 + stem, 704)]},
+            "_bar": {"width": width, "contours": [B.box(0, 304, width, 304 + bar)]},
+            "Abar": {"width": width, "unicodes": [0x23A], "components": [("A", (1, 0, 0, 1, 0, 0)),
+                                                                         ("_bar", (1, 0, 0, 1, 0, 0))]},
+        }, "order": [".notdef", "A", "Abar", "_bar"]}
+    reg = master(96, 608, 48)
+    reg["layers"] = {"medium": {"glyphs": {"_bar": {"width": 656, "contours": [B.box(0, 304, 656, 304 + 160)]}}}}
+    two = c["axes"] == 2
+    axes = [{"name": "Weight", "tag": "wght", "min": 400, "default": 400, "max": 700}]
+    if two:
+        axes.append({"name": "Width", "tag": "wdth", "min": 75, "default": 100, "max": 100})
+
+    def loc(w=None, wd=None):
+        d = {}
+        full = c["locations"] == "full"
+        if w is not None or full:
+            d["Weight"] = 400 if w is None else w
+        if two and (wd is not None or full):
+            d["Width"] = 100 if wd is None else wd
+        return d
+    sources = [{"spec": reg, "share": "reg", "location": {"Weight": 400, **({"Width": 100} if two else {})},
+                "name": "Regular"},
+               {"spec": master(208, 704, 96), "location": loc(w=700), "name": "Bold"}]
+    if two:
+        sources.append({"spec": master(80, 448, 48), "location": loc(wd=75), "name": "Condensed"})
+    sparse = {"spec": reg, "share": "reg", "layerName": "medium", "location": loc(w=550), "name": "Medium"}
+    sources.insert(1 if c["sparse_pos"] == "second" else len(sources), sparse)
+    lib = {"public.skipExportGlyphs": list(skip)} if skip else {}
+    return B.build_designspace(axes, sources, lib=lib)
+
+
+def sparse_render(vf, name, location):
+    gs = vf.getGlyphSet(location=location)
+    pen = DecomposingRecordingPen(gs)
+    gs[name].draw(pen)
+    return sorted(canon_contour([(k, [tuple(round(v) for v in p) for p in pts]) for k, pts in cyc])
+                  for cyc in R.recording_to_cycles(pen.value)), round(gs[name].width)
+
+
+def run_sparse(c):
+    import ufo2ft
+    from fontTools import varLib
+    fn = ufo2ft.compileInterpolatableTTFsFromDS
+
+    def build(skip):
+        return O.reload(varLib.build(fn(sparse_family(c, skip), useProductionNames=False))[0])
+    ref, got = build(()), build(("_bar",))
+    viols = []
+    feat = {"flavour": "interp-ttf+varLib", "seam": "dslib", "family": "sparse-skipped-component",
+            "locations": c["locations"], "axes": c["axes"]}
+    if "_bar" in got.getGlyphOrder() or [g for g in ref.getGlyphOrder() if g != "_bar"] != got.getGlyphOrder():
+        viols.append(violation("glyph-order", feat, observed=got.getGlyphOrder()))
+    locs = [{"wght": 400}, {"wght": 550}, {"wght": 625}, {"wght": 700}]
+    if c["axes"] == 2:
+        locs = [dict(l, wdth=100) for l in locs] + [{"wght": 400, "wdth": 75}, {"wght": 550, "wdth": 87.5}]
+    n = 0
+    for l in locs:
+        for g in ("A", "Abar"):
+            (a, wa), (b_, wb) = sparse_render(ref, g, l), sparse_render(got, g, l)
+            n += 1
+            same = len(a) == len(b_) and all(
+                len(x) == len(y) and all(abs(p[0] - q[0]) <= 1 and abs(p[1] - q[1]) <= 1 for p, q in zip(x, y))
+                for x, y in zip(a, b_))
+            if not same:
+                viols.append(violation("rendering-changed", feat, glyph=g, location=l, expected=a, observed=b_))
+            if abs(wa - wb) > 1:
+                viols.append(violation("advance-changed", feat, glyph=g, location=l, expected=wa, observed=wb))
+    seen, out = set(), []
+    for v in viols:
+        k = (v["kind"], str(sorted(v["features"].items())))
+        if k not in seen:
+            seen.add(k)
+            out.append(v)
+    return Result(out, {"sparse_family_location_checks": n}, digest([c]), substates=n, nontrivial=n)
+
+
 class C13(Property):
     id = "C13"
     rule = ("state = (component graph of 4 outline glyphs + a mark, flavour, seam); every state compiles all "
@@ -232,10 +315,16 @@ class C13(Property):
                 for fl, seam in (("var-ttf", "dslib"), ("interp-ttf", "ufolibs"), ("interp-ttf", "arg"),
                                  ("var-cff2", "dslib")):
                     out.append([{"graph": graph, "flavour": fl, "seam": seam}])
+        for axes in (1, 2):
+            for locations in ("full", "partial"):
+                for pos in ("second", "last"):
+                    out.append([{"family": "sparse", "axes": axes, "locations": locations, "sparse_pos": pos}])
         return out
 
     def run(self, h, b):
         c = h[0]
+        if c.get("family") == "sparse":
+            return run_sparse(c)
         spec = make_spec(c["graph"])
         static = c["flavour"] in ("ttf", "otf")
         comp = (lambda skip: compile_static(spec, c["flavour"], skip, c["seam"], c.get("module", "ufoLib2"))) \
